@@ -11,6 +11,7 @@ from common import ToolError, log
 PROPS = {
     "C01": ("p_text", "check_c01"),
     "C02": ("p_text", "check_c02"),
+    "C04": ("p_grammar", "check_c04"),
 }
 
 
